@@ -5,7 +5,7 @@
                                      0 = the repaired parser
      code 100 + m                  : matches except for float fields written with an exponent part whose bits differ
      code 999                      : no configuration matches *)
-From Coq Require Import ZArith NArith List Bool.
+From Coq Require Import ZArith NArith List Bool String Ascii.
 From OG Require Import C06.Model C06.ModelStream.
 Import ListNotations.
 Open Scope Z_scope.
@@ -192,10 +192,13 @@ Fixpoint first_hmask (want : Z) (ms : list Z) (hc : hcase) : option Z :=
   | m :: r => if cmp_hcase (cfg_of_mask m) hc <=? want then Some m else first_hmask want r hc
   end.
 
+(* bodies are long: only configurations with at most two deviations are tried *)
+Definition hmasks : list Z := firstn 29 masks.
+
 Definition hclassify (hc : hcase) : Z :=
-  match first_hmask 0 masks hc with
+  match first_hmask 0 hmasks hc with
   | Some m => m
-  | None => match first_hmask 1 masks hc with Some m => 100 + m | None => 999 end
+  | None => match first_hmask 1 hmasks hc with Some m => 100 + m | None => 999 end
   end.
 
 Fixpoint hcodes_from (k : nat) (cs : list hcase) : list (nat * Z) :=
@@ -207,3 +210,11 @@ Definition hcodes := hcodes_from 0.
 
 (* helpers for the generated case files (everything in Z scope) *)
 Definition B (l : list Z) : bytes := map Z.to_N l.
+
+(* bytes written as a string of lower-case hex digits (much cheaper to read in than a list of numerals) *)
+Definition hexv (a : ascii) : N := let n := N_of_ascii a in if (n <? 58)%N then (n - 48)%N else (n - 87)%N.
+Fixpoint H (s : string) : bytes :=
+  match s with
+  | String a (String b r) => (16 * hexv a + hexv b)%N :: H r
+  | _ => []
+  end.
